@@ -75,6 +75,7 @@ Fixpoint parse_types (fuel : nat) (ts : list bytes) : option (list (tname * node
 Fixpoint show_ex (x : ex) : bytes :=
   match x with
   | XLit => [76%N]
+  | XNull => [78%N]
   | XArr l => [91%N] ++ flat_map show_ex l ++ [93%N]
   | XObj l => [123%N] ++ flat_map show_ex l ++ [125%N]
   end.
